@@ -10,10 +10,11 @@ Scripts == UNION {[1..n -> Items] : n \in 0..MaxK}
 
 MCInit ==
   /\ \E script \in Scripts : \E runs \in 1..MaxRuns : \E nA \in 0..1 : \E nR \in 0..MaxCb : \E lateR \in 0..1 :
-     \E maxfun \in 0..2 : \E abortAt \in 0..(MaxK * MaxRuns + 1) : \E redir \in BOOLEAN :
+     \E maxfun \in 0..2 : \E abortAt \in 0..(MaxK * MaxRuns + 1) : \E redir \in BOOLEAN : \E tolnone \in BOOLEAN :
        /\ (nA = 0 => abortAt = 0)
+       /\ ~(redir /\ tolnone)                 \* two orthogonal switches, varied one at a time
        /\ (runs = 1 => lateR = 0)
-       /\ cfg = [script |-> script, abortAt |-> abortAt, maxfun |-> maxfun, runs |-> runs, nA |-> nA, nR |-> nR, lateR |-> lateR, redir |-> redir]
+       /\ cfg = [script |-> script, abortAt |-> abortAt, maxfun |-> maxfun, runs |-> runs, nA |-> nA, nR |-> nR, lateR |-> lateR, redir |-> redir, tolnone |-> tolnone]
   /\ s = S0 /\ log = <<>>
 
 MCSpec == MCInit /\ [][BNext]_bvars /\ WF_bvars(BNext)
